@@ -472,7 +472,8 @@ UNITS = {
     "C13": [_lazy("contracts.shorten", "unit_bit_reader", "C13"), _lazy("contracts.shorten_block", "unit_block", "C13"),
             _lazy("contracts.shorten_block", "unit_fix", "C13"), _lazy("contracts.shorten_block", "unit_div", "C13"),
             _lazy("contracts.shorten_block", "unit_setup", "C13"), _lazy("contracts.shorten_block", "unit_loop", "C13"),
-            _lazy("contracts.shorten_block", "unit_header", "C13"), _lazy("contracts.shorten_block", "unit_word_get", "C13")],
+            _lazy("contracts.shorten_block", "unit_header", "C13"), _lazy("contracts.shorten_block", "unit_word_get", "C13"),
+            _lazy("contracts.shorten_block", "unit_ulong", "C13")],
     "C11": [unit_read_signal("C11", "dispatch"), unit_read_signal("C11", "wds"), unit_read_signal("C11", "infer"), unit_readers("C11"),
             _lazy("contracts.sphere_header", "unit_parse", "C11"), _lazy("contracts.readers_audio", "unit_readers_audio", "C11")],
     "C16": [unit_std("C16", "accumulate_vector"), unit_std("C16", "apply_vector"), unit_std("C16", "have_stats"), unit_std_tensor("C16"), unit_std_apply_tensor("C16"), _lazy("contracts.standardize", "unit_dispatch", "C16")],
